@@ -15,7 +15,9 @@ Two layers (see hsverif/c08_policy.py and hsverif/c08_pipe.py):
 from __future__ import annotations
 
 import copy
+import os
 import random
+import sys
 
 from hsverif.core import Family, Result, ddmin
 
@@ -188,21 +190,21 @@ def shrink_pipe(case: dict, still_fails) -> dict:
 
 
 FAMILIES = {
-    "policy": Family("policy", gen_policy, run_policy, shrink=shrink_policy, case_timeout=20.0),
-    "qr": Family("qr", _gen_pipe(("server", "server", "threadpool", "userqr", "rawqueue")), run_pipe, shrink=shrink_pipe, case_timeout=30.0),
+    "policy": Family("policy", gen_policy, run_policy, shrink=shrink_policy, case_timeout=60.0),
+    "qr": Family("qr", _gen_pipe(("server", "server", "threadpool", "userqr", "rawqueue")), run_pipe, shrink=shrink_pipe, case_timeout=60.0),
     "industrial": Family(
         "industrial",
         _gen_pipe(("shifted", "reneging", "pooled", "batch", "conveyor", "gate", "server"), balking=True),
         run_pipe,
         shrink=shrink_pipe,
-        case_timeout=30.0,
+        case_timeout=60.0,
     ),
     "topology": Family(
         "topology",
         _gen_pipe(("server", "server", "userqr", "threadpool", "pooled", "conveyor", "gate", "batch", "shifted"), topo=("chain2", "chain2", "fan2")),
         run_pipe,
         shrink=shrink_pipe,
-        case_timeout=30.0,
+        case_timeout=60.0,
     ),
 }
 
@@ -210,3 +212,9 @@ BUDGET = {
     "quick": {"policy": 6000, "qr": 3000, "industrial": 3000, "topology": 1500},
     "thorough": {"policy": 300000, "qr": 200000, "industrial": 200000, "topology": 100000},
 }
+
+# Interpreter start-up (importing happysimulator, 2-4 s) dominates the cost of a shard, a case takes
+# 1-2 ms: use few, large shards.  The runner reads `shard_size` from the family object.
+_THOROUGH = "thorough" in sys.argv or os.environ.get("VERIF_TIER") == "thorough"
+for _f in FAMILIES.values():
+    _f.shard_size = 5000 if _THOROUGH else 750
